@@ -122,19 +122,32 @@ impl Machine {
         &mut self.raw
     }
 
+    /// Upper bound for the clock edges issued by one step in [`StepMode::Assembly`].
+    const MAX_EDGES_PER_ASSEMBLY_STEP: usize = 4096;
+
     /// Emulate a rising CLK edge.
     ///
     /// TODO: Examples
     pub fn trigger_key_clock(&mut self) {
         match self.step_mode {
             StepMode::Assembly => {
+                // No instruction needs this many clock edges (the longest one,
+                // DIV 255 / 1, takes less than 600). Undefined opcodes never
+                // complete, so the step has to give up at some point.
+                let mut edges_left = Self::MAX_EDGES_PER_ASSEMBLY_STEP;
                 // Start the next instruction
-                while self.is_instruction_done() && self.state() == State::Running {
-                    self.raw_mut().trigger_clock_edge()
+                while self.is_instruction_done() && self.state() == State::Running && edges_left > 0
+                {
+                    self.raw_mut().trigger_clock_edge();
+                    edges_left -= 1;
                 }
                 // Finish this instruction
-                while !self.is_instruction_done() && self.state() == State::Running {
-                    self.raw_mut().trigger_clock_edge()
+                while !self.is_instruction_done()
+                    && self.state() == State::Running
+                    && edges_left > 0
+                {
+                    self.raw_mut().trigger_clock_edge();
+                    edges_left -= 1;
                 }
             }
             StepMode::Real => self.raw_mut().trigger_clock_edge(),
